@@ -12,12 +12,12 @@ struct NotImplementedError {};
 #ifndef ADD_TERMS
 #define ADD_TERMS 2
 #endif
-struct Pow; struct Interval; struct TwoArgBasic; struct OneArgFunction; struct Add;
+struct Pow; struct Interval; struct TwoArgBasic; struct OneArgFunction; struct Add; struct Complement; struct Contains;
 struct Basic {
   TypeID type_code_;
   long rank; hash_t h_; bool zero_;          /* ghost contract data of an abstract child */
   mutable hash_t hash_;
-  const Pow *pow_; const Interval *iv_; const TwoArgBasic *ta_; const OneArgFunction *oa_; const Add *add_;
+  const Pow *pow_; const Interval *iv_; const TwoArgBasic *ta_; const OneArgFunction *oa_; const Add *add_; const Complement *cm_; const Contains *ct_;
   bool composite;
   TypeID get_type_code() const { return type_code_; }
   hash_t __hash__() const;
@@ -50,6 +50,13 @@ inline bool unified_eq(const umap_basic_num &a, const umap_basic_num &b)
   if (a.n == 1) return pair_eq(a.d[0], b.d[0]);
   return (pair_eq(a.d[0], b.d[0]) && pair_eq(a.d[1], b.d[1])) || (pair_eq(a.d[0], b.d[1]) && pair_eq(a.d[1], b.d[0]));
 }
+#include "unified.inc"          /* unified_compare / unified_eq for RCP operands: real template text of dict.h, instantiated for Basic */
+struct Complement { RCPBasic universe_, container_; hash_t __hash__() const; bool __eq__(const Basic &o) const; int compare(const Basic &o) const; };
+struct Contains { RCPBasic expr_, set_; hash_t __hash__() const; bool __eq__(const Basic &o) const; int compare(const Basic &o) const; RCPBasic get_expr() const; RCPBasic get_set() const; };
+inline bool is_a_Complement(const Basic &b) { return b.type_code_ == SYMENGINE_COMPLEMENT; }
+inline bool is_a_Contains(const Basic &b) { return b.type_code_ == SYMENGINE_CONTAINS; }
+inline const Complement &as_Complement(const Basic &b) { return *b.cm_; }
+inline const Contains &as_Contains(const Basic &b) { return *b.ct_; }
 struct Pow { RCPBasic base_, exp_; hash_t __hash__() const; bool __eq__(const Basic &o) const; int compare(const Basic &o) const; };
 struct Interval { RCPBasic start_, end_; bool left_open_, right_open_; hash_t __hash__() const; bool __eq__(const Basic &o) const; int compare(const Basic &o) const; };
 struct Add { RCPBasic coef_; umap_basic_num dict_; hash_t __hash__() const; bool __eq__(const Basic &o) const; };
@@ -78,16 +85,16 @@ inline const OneArgFunction &as_OneArgFunction(const Basic &b) { return *b.oa_; 
 hash_t Basic::__hash__() const
 {
   if (!composite) return h_;
-  switch (CLS) { case 1: return pow_->__hash__(); case 2: return iv_->__hash__(); case 3: return ta_->__hash__(); case 4: return oa_->__hash__(); default: return add_->__hash__(); }
+  switch (CLS) { case 1: return pow_->__hash__(); case 2: return iv_->__hash__(); case 3: return ta_->__hash__(); case 4: return oa_->__hash__(); case 6: return cm_->__hash__(); case 7: return ct_->__hash__(); default: return add_->__hash__(); }
 }
 bool Basic::__eq__(const Basic &o) const
 {
   if (!composite) return !o.composite && rank == o.rank;
-  switch (CLS) { case 1: return pow_->__eq__(o); case 2: return iv_->__eq__(o); case 3: return ta_->__eq__(o); case 4: return oa_->__eq__(o); default: return add_->__eq__(o); }
+  switch (CLS) { case 1: return pow_->__eq__(o); case 2: return iv_->__eq__(o); case 3: return ta_->__eq__(o); case 4: return oa_->__eq__(o); case 6: return cm_->__eq__(o); case 7: return ct_->__eq__(o); default: return add_->__eq__(o); }
 }
 int Basic::compare(const Basic &o) const
 {
-  switch (CLS) { case 1: return pow_->compare(o); case 2: return iv_->compare(o); case 3: return ta_->compare(o); default: return oa_->compare(o); }
+  switch (CLS) { case 1: return pow_->compare(o); case 2: return iv_->compare(o); case 3: return ta_->compare(o); case 6: return cm_->compare(o); case 7: return ct_->compare(o); default: return oa_->compare(o); }
 }
 int Basic::__cmp__(const Basic &o) const { return rank < o.rank ? -1 : (rank > o.rank ? 1 : 0); }     /* children only: the assumed contract */
 
@@ -113,10 +120,11 @@ static void any_children(void)
   for (unsigned k = 0; k < 6; k++) { HT[k] = nondet_ulong(); int t = nondet_int(); __CPROVER_assume(t >= 0 && t < (int)TypeID_Count); TT[k] = t; ZT[k] = nondet_boolean(); }
   any_child(c0); any_child(c1); any_child(c2); any_child(c3); any_child(c4); any_child(c5);
 }
-struct Obj { Basic b; Pow p; Interval iv; TwoArgBasic ta; OneArgFunction oa; Add ad; };
+struct Obj { Basic b; Pow p; Interval iv; TwoArgBasic ta; OneArgFunction oa; Add ad; Complement cm; Contains ct; };
 static void any_parent(Obj &o, TypeID tc)
 {
-  o.b.composite = true; o.b.hash_ = 0; o.b.type_code_ = tc; o.b.pow_ = &o.p; o.b.iv_ = &o.iv; o.b.ta_ = &o.ta; o.b.oa_ = &o.oa; o.b.add_ = &o.ad;
+  o.b.composite = true; o.b.hash_ = 0; o.b.type_code_ = tc; o.b.pow_ = &o.p; o.b.iv_ = &o.iv; o.b.ta_ = &o.ta; o.b.oa_ = &o.oa; o.b.add_ = &o.ad; o.b.cm_ = &o.cm; o.b.ct_ = &o.ct;
+  o.cm.universe_ = pick(); o.cm.container_ = pick(); o.ct.expr_ = pick(); o.ct.set_ = pick();
   o.p.base_ = pick(); o.p.exp_ = pick();
   o.iv.start_ = pick(); o.iv.end_ = pick(); o.iv.left_open_ = nondet_boolean(); o.iv.right_open_ = nondet_boolean();
   o.ta.a_ = pick(); o.ta.b_ = pick(); o.ta.self_ = &o.b; o.oa.arg_ = pick(); o.oa.self_ = &o.b;
@@ -132,6 +140,10 @@ static TypeID parent_code(void)
   return SYMENGINE_INTERVAL;
 #elif CLS == 5
   return SYMENGINE_ADD;
+#elif CLS == 6
+  return SYMENGINE_COMPLEMENT;
+#elif CLS == 7
+  return SYMENGINE_CONTAINS;
 #else
   /* TwoArgBasic / OneArgFunction are bases of many classes: any type code, the same for the operands that are compared with compare() */
   int t = nondet_int(); __CPROVER_assume(t >= 0 && t < (int)TypeID_Count); return (TypeID)t;
